@@ -7,8 +7,8 @@ From stdpp Require Import base option list numbers fin_maps nmap.
 From Verif.Base Require Import Bytes.
 From Verif.Topics Require Import Predefined.
 From Verif.Codec Require Import Packets Decode Encode RefParse.
-From Verif.Checkers Require Import ChkCodec ChkGw ChkGw2 ChkCl.
-From Verif.Gateway Require Import GwTypes GwStep.
+From Verif.Checkers Require Import ChkCodec ChkGw ChkGw2 ChkGw3 ChkCl.
+From Verif.Gateway Require Import GwTypes GwStep Sound_C07C08C09.
 From Verif.Match Require Import Match.
 From Verif.Util Require Import IdSeq.
 From Verif.Txn Require Import Txn.
@@ -25,7 +25,7 @@ Extraction "model.ml"
   read_packet read_dgram pack ref_parse ref_split wf_pkt pkt_eqb chk_C21 chk_C22 chk_short
   encode_short decode_short is_short_topic
   init_state gw_step gw_run chk_C14 chk_C01 chk_C23 chk_C24 obs_of_outs mqtt_valid
-  chk_C03 chk_C04 chk_C07 chk_C08 chk_C09 chk_C11
+  chk_C03 chk_C04 chk_C07 chk_C08 chk_C09 chk_C11 chk_C02 mon_init mon_step c08_excluded c09_excluded
   cl_init cl_step cl_run handle_set match_route split join valid_filter
   q_new q_step q_run st_new st_step st_run txn_new txn_step txn_run
   parse_options tool_cfg gateway_starts client_tool_starts parse_line
